@@ -386,7 +386,17 @@ def _shards(nkey, two_level):
         if two_level:
             second = ["len(ops) < 2 or ops[1] <= 0", "len(ops) >= 2 and 1 <= ops[1] <= %d" % n,
                       "len(ops) >= 2 and %d <= ops[1] <= %d" % (n + 1, 3 * n), "len(ops) >= 2 and ops[1] >= %d" % (3 * n + 1)]
-            heavy = [h + (x,) for h in heavy for x in second]
+            third = ["len(ops) < 3 or ops[2] <= 0", "len(ops) >= 3 and 1 <= ops[2] <= %d" % n,
+                     "len(ops) >= 3 and %d <= ops[2] <= %d" % (n + 1, 3 * n), "len(ops) >= 3 and ops[2] >= %d" % (3 * n + 1)]
+            h2 = []
+            for h in heavy:
+                tick_first = "ops[0] == 0" in h[0]
+                for k, x in enumerate(second):
+                    if k == 0 and tick_first:
+                        h2 += [h + (x, y) for y in third]      # tick, tick, ...: the largest subtree
+                    else:
+                        h2.append(h + (x,))
+            heavy = h2
         out += heavy
         out += [("len(ops) >= 1 and ops[0] < 0",)]
         return out
